@@ -178,7 +178,7 @@ pub fn property() -> Property {
                 logistic::FORCED_ALPHA
             ),
             "binary objective: sum ln(1+exp(-y z)) + alpha/2 |w|^2 with y = +1 for labels().pos.class (whichever class linfa reports as positive), intercept unpenalised; \
-             multinomial: -sum ln softmax(xW+b)[class] + alpha/2 |W|_F^2, one-hot columns in sorted class order"
+             multinomial: -sum ln softmax(xW+b)[class] + alpha/2 |W|_F^2, one-hot columns in the order classes() reports"
                 .into(),
             "probabilities are compared with the harness' own logistic/softmax of the score, allowing a score rounding error of 16 eps * sum|x_j w_j| and 1e-12 relative; \
              rows sum to one within 1e-9; extreme rows have |x.w| = 1e3 and single features of 1e6*scale"
@@ -191,9 +191,9 @@ pub fn property() -> Property {
             format!("oracle self-test: analytic gradient/Hessian of the harness objectives agree with central differences within {:e} relative", FD_TOL),
         ],
         subs: vec![
-            prop_sub("multinomial", 700, 14000, |t: Tier| logistic::case_strategy(true, t), multinomial_isolated).chunks(16),
-            prop_sub("binary", 1200, 24000, |t: Tier| logistic::case_strategy(false, t), binary_isolated).chunks(16),
-            prop_sub("glm", 2000, 40000, glm::case_strategy, glm_isolated).chunks(16),
+            prop_sub("multinomial", 1000, 12000, |t: Tier| logistic::case_strategy(true, t), multinomial_isolated).chunks(16),
+            prop_sub("binary", 2000, 24000, |t: Tier| logistic::case_strategy(false, t), binary_isolated).chunks(16),
+            prop_sub("glm", 2400, 30000, glm::case_strategy, glm_isolated).chunks(16),
             prop_sub("oracle_selftest", 300, 3000, |_t: Tier| self_strategy(), selftest).chunks(2),
         ],
     }
